@@ -32,6 +32,15 @@ def teardown(t):
     stubs.shutdown(t)
 
 
+def _initials(player, where):
+    """configured initial values that happen to be falsy are initial values like any other: present, of the declared type"""
+    for name, typ, val in (("tag", str, ""), ("ratio", float, 0.0), ("zero", int, 0), ("bonus", int, 7)):
+        if not player.is_player_var(name) or type(player[name]) is not typ or player[name] != val:
+            raise Violation("new-game-starts-from-configured-initial-values", "Player._load_initial_player_vars",
+                            "%s: player %s variable %s is %r (%s, defined: %s), configured initial value %r (%s)" % (
+                                where, player.number, name, player[name], type(player[name]).__name__, player.is_player_var(name), val, typ.__name__))
+
+
 def body_game(S, t, part):
     m = t.machine
     S.now_symbolic(t.loop)
@@ -56,6 +65,8 @@ def body_game(S, t, part):
         # something (a display, a placeholder) reads every player's persisted enable flag before the player's first ball: reading changes nothing
         for q in range(n):
             _ = g.player_list[q].shot_ps_enabled
+    for pl in m.game.player_list:
+        _initials(pl, "first game")
     turns = 0
     restored_checked = 0
     for ball in (1, 2):
@@ -154,6 +165,7 @@ def body_game(S, t, part):
     if m.counters["pc"].value != 10 or list(m.accruals["pa"].value) != [False, False, False] or m.game.player.score != 0 or m.game.player["bonus"] != 7:
         raise Violation("new-game-starts-from-initial-values", "LogicBlock.device_loaded_in_mode", "new game: counter %s accrual %s score %s bonus %s" % (
             m.counters["pc"].value, list(m.accruals["pa"].value), m.game.player.score, m.game.player["bonus"]))
+    _initials(m.game.player, "new game")
     S.note("nontrivial", turns >= 2 and restored_checked >= 1)
     S.note("turns", turns)
 
